@@ -29,6 +29,9 @@ func C03(c *Ctx) {
 	r.Rule("R03.5", "validator threshold: in verifyMultiSign the counter is incremented only across the membership-found edge of the validator set built from the trust root, the matched validator is removed from the set before the increment, and success is returned only across counter > (len(validators)-1)/3.")
 	r.Rule("R03.6", "no other entry: every dispatchable, invocable contract entry from which InterchainManager.HandleIBTP/ProcessIBTP is reachable (directly or through cross-invoke edges) has a caller guard.")
 	r.NotDecided = append(r.NotDecided, "that a rule engine's verdict is right; the partition arithmetic of verification groups; history-dependence of the bound rule beyond 'read from ledger state at verification time'")
+	// an IBTP whose proof was rejected changes nothing: it is neither listed for a timeout nor does it take a request
+	// out of the list (decided by the C06 rule set)
+	r.Borrow(map[string]string{"R06.2": "R03.10", "R06.8": "R03.11"}, func() { C06(c) })
 
 	// ---- R03.1
 	pe := c.fn("R03.1", execPrefix+"processExecuteEvent")
